@@ -206,6 +206,7 @@ def check_c14(args):
     write_evidence("C14", tier, seed, "exploration", {
         "evaluations": evals, "distinct_nontrivial": len(nontriv) + sstats["statements_returning_rows"],
         "typed_scalar_part": sstats,
+        "tlaps": tlaps("ScalarOv"),
         "rule": "select id, e1, e2, e3 from t1 with random expressions of depth <= 3 over arithmetic (+ - * / % neg), "
                 "comparisons, AND/OR/NOT, IS [NOT] NULL, CASE, IN list, LIKE, || on int / varchar columns with NULLs; "
                 "tables of 1, 63, 64, 65, 130, 200 rows (bitmap word boundaries), one or two chunks / row-sets, "
@@ -220,6 +221,10 @@ def check_c14(args):
          "repeat, LIKE; the statement must fail iff some expression fails on some row",
          "bigint, floats, decimals, dates, intervals, EXTRACT, SUBSTRING are not in the TLA+ value model (TLC integers "
          "are 32 bit)",
+         "the overflow tests of Scalar.tla for + - and unary minus (written without leaving 32 bits) are proved equal to "
+         "the exact definition over unbounded integers for every bound M (spec/proofs/ScalarOv.tla, TLAPS, re-proved in "
+         "every run); the test for * was checked exact for SMALLINT by z3 over bit-vectors (spec/proofs/mulov_z3.py, "
+         "unsat in 59 s; the INT instance did not finish in 240 s and is covered by boundary cases only)",
          "error-producing sub-expressions are not generated below AND / OR / CASE / IN (eager vs. lazy evaluation of "
          "failing branches is not decided by the property)"],
         time.time() - t0, len(v.violations))
